@@ -48,28 +48,32 @@ type c13Scenario struct {
 	// EndInClose: while Close() is closing the streams, the server ends another vBucket's stream on its own with this
 	// cause (state | slow | backfill | disconnected | socket); only with the interface-level client, current servers
 	EndInClose string `json:"end_in_close,omitempty"`
+	// PingFails (health check on, interface-level client): the cluster stops answering pings shortly before Close(), so
+	// that Close() arrives while the health check sits in the retry wait of a failing round
+	PingFails bool `json:"ping_fails,omitempty"`
 }
 
 type c13Result struct {
-	Ready          bool              `json:"ready"`
-	CloseReturned  bool              `json:"close_returned"`
-	CloseMs        int64             `json:"close_ms"`
-	Settled        map[string]uint64 `json:"settled"`  // positions settled before Close was called
-	Durable        map[string]uint64 `json:"durable"`  // durable store when Start() returned
-	OpenVbs        int               `json:"open_vbs"` // vBucket streams open when Close was called
-	CloseStreams   int               `json:"close_streams"`
-	DcpClose       int               `json:"dcp_close"`
-	ClientClose    int               `json:"client_close"`
-	ConsumedAfter  int               `json:"consumed_after"` // ConsumeEvent calls after Start() returned
-	WritesAfter    int               `json:"writes_after"`   // per-vBucket store writes in the quiet window
-	PingsAfter     int               `json:"pings_after"`
-	OpensAfter     int               `json:"opens_after"`
-	OpensInClose   int               `json:"opens_in_close"` // stream requests between the call of Close() and its completion
-	ObservesAfter  int               `json:"observes_after"`
-	Leftover       []string          `json:"leftover"`         // library frames of goroutines alive after the quiet window
-	MemberOpsAfter int               `json:"member_ops_after"` // KV requests on membership documents in the quiet window
-	StreamWasOpen  bool              `json:"stream_was_open"`
-	Note           string            `json:"note"`
+	Ready                 bool              `json:"ready"`
+	CloseReturned         bool              `json:"close_returned"`
+	CloseMs               int64             `json:"close_ms"`
+	Settled               map[string]uint64 `json:"settled"`  // positions settled before Close was called
+	Durable               map[string]uint64 `json:"durable"`  // durable store when Start() returned
+	OpenVbs               int               `json:"open_vbs"` // vBucket streams open when Close was called
+	CloseStreams          int               `json:"close_streams"`
+	DcpClose              int               `json:"dcp_close"`
+	ClientClose           int               `json:"client_close"`
+	ConsumedAfter         int               `json:"consumed_after"` // ConsumeEvent calls after Start() returned
+	WritesAfter           int               `json:"writes_after"`   // per-vBucket store writes in the quiet window
+	PingsAfter            int               `json:"pings_after"`
+	OpensAfter            int               `json:"opens_after"`
+	PingFailedBeforeClose bool              `json:"ping_failed_before_close"`
+	OpensInClose          int               `json:"opens_in_close"` // stream requests between the call of Close() and its completion
+	ObservesAfter         int               `json:"observes_after"`
+	Leftover              []string          `json:"leftover"`         // library frames of goroutines alive after the quiet window
+	MemberOpsAfter        int               `json:"member_ops_after"` // KV requests on membership documents in the quiet window
+	StreamWasOpen         bool              `json:"stream_was_open"`
+	Note                  string            `json:"note"`
 }
 
 func c13Child(raw json.RawMessage) any {
@@ -218,7 +222,29 @@ func c13Child(raw json.RawMessage) any {
 	}
 	slow := time.Duration(sc.SlowMs) * time.Millisecond
 	opensAtClose := -1
+	t0 := time.Now()
+	var pingFailing atomic.Bool
+	var failedPings atomic.Int32
+	if sc.PingFails && sc.Health && client == couchbase.Client(cl) {
+		cl.mu.Lock()
+		cl.pingFn = func() error {
+			if pingFailing.Load() {
+				failedPings.Add(1)
+				return fmt.Errorf("injected ping failure")
+			}
+			return nil
+		}
+		cl.mu.Unlock()
+	}
 	closeNow := func() {
+		if sc.PingFails && sc.Health && client == couchbase.Client(cl) {
+			pingFailing.Store(true)
+			for dl := time.Now().Add(2 * time.Second); failedPings.Load() == 0 && time.Now().Before(dl); {
+				time.Sleep(200 * time.Microsecond)
+			}
+			res.PingFailedBeforeClose = failedPings.Load() > 0
+			t0 = time.Now()
+		}
 		cl.mu.Lock()
 		opensAtClose = len(cl.opens)
 		cl.mu.Unlock()
@@ -251,7 +277,7 @@ func c13Child(raw json.RawMessage) any {
 			d.Close()
 		}
 	}
-	t0 := time.Now()
+	t0 = time.Now()
 	bus := godcp.VerifBus(d)
 	switch sc.State {
 	case "idle":
@@ -486,6 +512,9 @@ func c13Exec(sc c13Scenario) string {
 	if !res.CloseReturned {
 		return fmt.Sprintf("Close() in state %s: %s", sc.State, strings.TrimSpace(res.Note))
 	}
+	if res.PingFailedBeforeClose && res.CloseMs > 900 {
+		return fmt.Sprintf("Close() in state %s while the health check was inside the retry wait of a failing round took %d ms: it sat out the retry wait(s) instead of stopping the check", sc.State, res.CloseMs)
+	}
 	if res.CloseMs > 20_000 {
 		return fmt.Sprintf("Close() in state %s took %d ms", sc.State, res.CloseMs)
 	}
@@ -554,6 +583,7 @@ func c13Gen(rt *rapid.T) c13Scenario {
 		sc.Mitigate = true
 	}
 	sc.OldServer = rapid.IntRange(0, 3).Draw(rt, "oldserver") == 0
+	sc.PingFails = sc.Health && !sc.Mitigate && !strings.HasPrefix(sc.State, "rebalance_") && rapid.IntRange(0, 2).Draw(rt, "pingfails") > 0
 	if !sc.OldServer && sc.NVb >= 2 && (!sc.Mitigate || sc.State == "gate_blocked") && !strings.HasPrefix(sc.State, "rebalance_") && rapid.IntRange(0, 2).Draw(rt, "endinclose") == 0 {
 		sc.EndInClose = rapid.SampledFrom([]string{"state", "slow", "backfill", "disconnected", "socket"}).Draw(rt, "endcause")
 	}
@@ -628,6 +658,9 @@ func TestC13_Shutdown(t *testing.T) {
 		}
 		if scs[i].EndInClose != "" {
 			labs = append(labs, "server_ends_stream_during_close")
+		}
+		if scs[i].PingFails {
+			labs = append(labs, "close_during_failing_health_round")
 		}
 		if scs[i].OldServer && scs[i].NVb >= 2 {
 			labs = append(labs, "serial_close_server")
